@@ -2,6 +2,7 @@
 //! simulated io_uring kernel and prints canonical traces for the Lean model.
 
 mod comp;
+mod sched;
 mod simk;
 mod track;
 mod util;
